@@ -14,6 +14,7 @@ REGISTRY = {
     'C02': ('c02', []),
     'C18': ('c18', []),
     'C10': ('c10', []),
+    'C19': ('c19', ['side effects through global state (matplotlib, logging handlers, the file system) are exercised, not modelled']),
     'C15': ('c15', ['real thread/process scheduling, pickling and races inside user models are not modelled (partial)']),
     'C16': ('c16', ['log/exp are parameters of the model; Log chains are checked by the round-trip oracle only', 'SVD projection matrices are oracles (orthonormality checked numerically)']),
     'C09': ('c09', ['Leja point placement (scipy DIRECT) and the model function are oracles of the model']),
